@@ -225,3 +225,72 @@ Theorem C02_state_inventory :
     Mpc.Base.StatePkgs.pkgs_C02 = true.
 Proof. vm_compute. reflexivity. Qed.
 Print Assumptions C02_state_inventory.
+
+(* ERROR EXITS (Proto/LiveAbort.v; what the code does is written at the top of
+   that file: the protocol functions return the error and leave the connection
+   alone, their CALLER calls Conn.Close, which flushes and then closes).
+   For EVERY pair of skeletons accepted by the checker, EVERY environment,
+   EVERY abort point of the garbler and of the evaluator ([Some r]: the party
+   returns an error when r or fewer actions are left — any point of its
+   program, in particular each Receive; [Some 0]: normal return followed by
+   the caller's Close; [None]: never), EVERY choice of automatic flushes and of
+   write errors towards a closed peer and EVERY fair schedule: no receive sees
+   a message of the wrong kind and BOTH parties have returned — normally, or
+   with an error after which the connection was closed, or with EOF / a write
+   error caused by the peer's close.  Nobody is left blocked. *)
+From Mpc Require Import Proto.LiveAbort Proto.LiveAbortProof.
+Theorem C02_abort_live :
+  forall g e, well_flushed g e = true ->
+  forall (en : env) (ag ae : option nat) (sched : asched), afair g e en sched ->
+    let s := arun_live g e en (mkSpec ag ae true) sched in
+    bad (base s) = false /\
+    ((stG s = Run /\ hp (cG (base s)) = []) \/ stG s = Closed \/ (stG s = Failed /\ stE s = Closed)) /\
+    ((stE s = Run /\ hp (cE (base s)) = []) \/ stE s = Closed \/ (stE s = Failed /\ stG s = Closed)).
+Proof. exact abort_live. Qed.
+Print Assumptions C02_abort_live.
+
+(* the same for the sessions generated from the current source, every OT kind *)
+Theorem C02_abort_live_sessions :
+  forall (k : otkind) (en : env) (ag ae : option nat) (sched : asched),
+    afair (garbler_skel k) (evaluator_skel k) en sched ->
+    let s := arun_live (garbler_skel k) (evaluator_skel k) en (mkSpec ag ae true) sched in
+    bad (base s) = false /\
+    ((stG s = Run /\ hp (cG (base s)) = []) \/ stG s = Closed \/ (stG s = Failed /\ stE s = Closed)) /\
+    ((stE s = Run /\ hp (cE (base s)) = []) \/ stE s = Closed \/ (stE s = Failed /\ stG s = Closed)).
+Proof. exact abort_live_sessions. Qed.
+Print Assumptions C02_abort_live_sessions.
+
+(* In every state reachable in such a run (AInv holds there: C02_abort_reachable),
+   once the peer has closed, each scheduling of a party that has not returned
+   makes it advance (the measure = remaining actions of the running parties
+   drops): its Send/Flush is executed or fails, its Receive delivers a message
+   still in flight or fails with EOF — nothing blocks. *)
+Theorem C02_closed_peer_never_blocks :
+  forall sp s a w, closes sp = true -> AInv s ->
+    (stE s = Closed -> stG s = Run -> hp (cG (base s)) <> [] -> (am (astep sp (CG a) w s) < am s)%nat) /\
+    (stG s = Closed -> stE s = Run -> hp (cE (base s)) <> [] -> (am (astep sp (CE a) w s) < am s)%nat).
+Proof. exact closed_peer_never_blocks. Qed.
+Print Assumptions C02_closed_peer_never_blocks.
+
+Theorem C02_abort_reachable :
+  forall g e, well_flushed g e = true ->
+  forall en ag ae sched, AInv (arun_live g e en (mkSpec ag ae true) sched).
+Proof. exact reachable_ainv. Qed.
+Print Assumptions C02_abort_reachable.
+
+(* The variant in which the caller does NOT close after an error return is
+   refuted: in the miniature session (accepted by the checker) the evaluator
+   returns an error at its first Receive; with the close the garbler fails
+   with EOF after 6 rounds of the alternating schedule; without it, for every
+   n, n complete rounds leave the garbler blocked in ReceiveUint32 for ever. *)
+Theorem C02_abort_no_close_refuted :
+  exists (g e : prog) (en : env) (ae : option nat),
+    well_flushed g e = true /\
+    (forall n, (6 <= n)%nat ->
+       let s := arun_live g e en (mkSpec None ae true) (alt' n) in
+       stE s = Closed /\ stG s = Failed) /\
+    forall n, count_rounds false false (map fst (alt' n)) = n /\
+              afin (arun_live g e en (mkSpec None ae false) (alt' n)) = false /\
+              ((6 <= n)%nat -> arun_live g e en (mkSpec None ae false) (alt' n) = abort_stuck).
+Proof. exact no_close_refuted. Qed.
+Print Assumptions C02_abort_no_close_refuted.
